@@ -37,7 +37,26 @@ def knife_rules(ctx, fi, rank, newsel):
         ctx.check(ok, f"{P}.WINDOW", site, "the whole FAB is read", "read window is not the whole FAB",
                   where=loc(fi, ff.node))
     sk = res.events("seek_abs")
-    ctx.check(not sk, f"{P}.SCAN", site, "sequential scan of the input file", f"absolute seeks {[s.key for s in sk]}")
+    if not sk:
+        ctx.ok(f"{P}.SCAN", site, "sequential scan of the input file")
+    else:
+        # P6 (access kind <-> map order), decided on interpreter events: a knife that seeks to offsets handed in its
+        # task returns its results in the order of that offsets list; cook()'s scatter map pairs the k-th result of a
+        # file with the k-th box in ascending offset order (map_and_tasks, sorted_by_offsets) - right for a sequential
+        # scan, and for a seek-addressed worker only when the offsets it is given are sorted the same way
+        import re as _re
+        keys = {m for s_ in sk for m in _re.findall(r"args\['([A-Za-z_0-9]+)'\]", s_.key)}
+        ck_ = ctx.prog.func(CH, "Chef.cook", P)
+        vals = [norm(v) for d in ast.walk(ck_.node) if isinstance(d, ast.Dict) for k, v in zip(d.keys, d.values)
+                if isinstance(k, ast.Constant) and k.value in keys]
+        sorted_in = bool(vals) and all(("argsort" in v or "np.sort(" in v or "sorted(" in v) for v in vals)
+        ctx.decide(sorted_in, bool(keys), f"{P}.SCAN", site,
+                   "seek-addressed worker fed offsets in ascending order (the order of the scatter map)",
+                   f"the worker seeks to {[s_.key for s_ in sk]} and so returns its results in the order of that list "
+                   f"({vals or 'not produced by cook()'}: Cell_H order), while cook() scatters the k-th result of a file to "
+                   f"the k-th box in ascending OFFSET order (argsort map): for a file whose boxes are not stored in Cell_H "
+                   f"order every offset and min/max row goes to another box of the file", key="p6-seek",
+                   where=loc(fi, sk[0].node))
 
     def comps_ok(arr, path):
         cs = arr.comps or []
